@@ -72,7 +72,13 @@ def regen_constants():
     has_param = "done" in m.group(1) and "<-done" in m.group(2)
     if reads_field == has_param:
         raise RuntimeError("C13 constants translator: shape of cluster.watchStream not recognised")
-    regen_constants.flags = {"reload_outside": reload_outside, "done_bound": has_param}
+    # does setupWatch create a watcher when the key has none (left over from a watch goroutine that outlived
+    # Unmonitor: finding C13/unmonitor-during-load-leaves-zombie-watcher) or stop?
+    m = re.search(r"func \(c \*cluster\) setupWatch\(.*?\n}\n", rsrc, re.S)
+    if not m:
+        raise RuntimeError("C13 constants translator: cluster.setupWatch not found in registry.go")
+    setup_creates = "newWatchValue()" in m.group(0)
+    regen_constants.flags = {"reload_outside": reload_outside, "done_bound": has_param, "setup_creates": setup_creates}
     text = "\n".join(["(* GENERATED by tools/props/c13.py from zrpc/resolver/internal/resolver.go,",
                       "   zrpc/resolver/internal/kube/eventhandler.go and core/discov/internal/registry.go of the checked",
                       "   tree at every run - do not edit. *)",
@@ -82,7 +88,9 @@ def regen_constants():
                       "(* cluster.reload waits for the previous watch goroutines AFTER releasing cluster.lock *)",
                       "Definition gen_reloadWaitsOutsideLock : bool := %s." % cbool(reload_outside),
                       "(* watchStream selects on the done channel of its own watch generation (a parameter), not on the field c.done *)",
-                      "Definition gen_watchDoneBoundToGeneration : bool := %s." % cbool(has_param), ""])
+                      "Definition gen_watchDoneBoundToGeneration : bool := %s." % cbool(has_param),
+                      "(* setupWatch never creates a watcher for a key that is not monitored (any more) *)",
+                      "Definition gen_setupWatchNeverCreatesWatcher : bool := %s." % cbool(not setup_creates), ""])
     val = (val, replaces)
     path = os.path.join(vlib.COQ, "gen", "C13Consts.v")
     os.makedirs(os.path.dirname(path), exist_ok=True)
@@ -336,8 +344,9 @@ class C13(Property):
         self.subset_size = val
         self.kube_replaces = replaces
         self.flags = dict(regen_constants.flags)
-        return ["C13Consts.v %s: subsetSize=%s kubeOnAddReplaces=%s reloadWaitsOutsideLock=%s watchDoneBoundToGeneration=%s"
-                % ("rewritten" if changed else "unchanged", val, replaces, self.flags["reload_outside"], self.flags["done_bound"])]
+        return ["C13Consts.v %s: subsetSize=%s kubeOnAddReplaces=%s reloadWaitsOutsideLock=%s watchDoneBoundToGeneration=%s "
+                "setupWatchNeverCreatesWatcher=%s" % ("rewritten" if changed else "unchanged", val, replaces,
+                                                      self.flags["reload_outside"], self.flags["done_bound"], not self.flags["setup_creates"])]
 
     def extra(self, ctx):
         with concurrent.futures.ThreadPoolExecutor(max_workers=3) as ex:
@@ -408,6 +417,23 @@ class C13(Property):
                                   "without a stream (expected Values() of the svc/a subscriber = [v2])", "replay": r})
         else:
             ctx.notes.append("reload monitor 2 (reload during load): reload returned, live=%s" % r.get("live"))
+        # 3. the last subscriber of a key closes while the key's watch goroutine is inside load(): with a setupWatch
+        #    that creates a missing watcher, a watcher without listeners and without the loaded values stays behind
+        #    and the next subscriber joins it (finding C13/unmonitor-during-load-leaves-zombie-watcher,
+        #    pending/C13-unmonitor-zombie-watcher.diff); skipped and noted as long as the source has that shape
+        if getattr(self, "flags", {}).get("setup_creates"):
+            ctx.notes.append("unmonitor monitor skipped: setupWatch creates a watcher for an unmonitored key (finding "
+                             "C13/unmonitor-during-load-leaves-zombie-watcher, pending/C13-unmonitor-zombie-watcher.diff)")
+            return fails
+        rc, out, rs = vlib.go_test_overlay("./core/discov", files, "TestVerifC13UnmonitorDuringLoad$", [], tag="c13rl3", timeout=120)
+        if rc != 0 or len(rs) != 1:
+            raise ExecError("c13 unmonitor monitor rc=%s: %s" % (rc, out[-1500:]))
+        r = rs[0]
+        if not (r.get("loading") and r.get("valuesB") == ["v1", "v2", "v3"] and r.get("valuesB2") == ["v1", "v2", "v3", "v4"]):
+            fails.append({"what": "the last subscriber of a key closed while its watch goroutine was loading: the next subscriber "
+                                  "of the key does not see the registered values (expected [v1 v2 v3], then [v1 v2 v3 v4])", "replay": r})
+        else:
+            ctx.notes.append("unmonitor monitor (Close during load): the next subscriber sees %s" % r["valuesB2"])
         return fails
 
     def _extra_kube(self, ctx):
